@@ -122,7 +122,15 @@ class C04(Spec):
             if rng.random() < 0.4 and all(b not in name for b in b"@"):
                 # the whole path of ":open @name": FetchUserInput strips the sigil, resolves, then opens the link it was given
                 tgt = href
-                w.serve(tgt, netgen.ok_json({"type": "Person", "id": tgt, "name": "Target", "preferredUsername": "t", "x": 1}))
+                if rng.random() < 0.35:
+                    # the link the lookup returns is served by one host but claims an id on ANOTHER: the claimed host is asked
+                    claimed = w.url((rng.randrange(3) + 1) % 3, "/claimed%d" % rng.randrange(100))
+                    w.serve(tgt, netgen.ok_json({"type": "Person", "id": claimed, "name": "Forged", "preferredUsername": "f", "x": 1}))
+                    if rng.random() < 0.5:
+                        w.serve(claimed, netgen.ok_json({"type": "Person", "id": claimed, "name": "Genuine", "preferredUsername": "g", "x": 1}))
+                    w.register_strings(claimed)
+                else:
+                    w.serve(tgt, netgen.ok_json({"type": "Person", "id": tgt, "name": "Target", "preferredUsername": "t", "x": 1}))
                 w.user_input(rng.choice((b"@", b"!")) + name + b"@" + dom.encode())
             else:
                 w.webfinger(name + b"@" + dom.encode())
